@@ -44,6 +44,23 @@ class Box:
         return f"<Box {self.ident}>"
 
 
+class FBox(Box):
+    """Like Box, but falsy while its field is 0 (an object whose __bool__ returns False)."""
+
+    __slots__ = ()
+
+    def __bool__(self):
+        return self.val != 0
+
+
+def make_objects(n):
+    """The object universe of spec/locals/Locals.tla (KindOf / Init0), identifiers 1..n.  Some are
+    always truthy, some always falsy (0, "", [], {}), some change (FBox, a list emptied through a
+    proxy).  Objects are identified by `is`."""
+    objs = {1: Box(1), 2: FBox(2), 3: [7, 7], 4: Box(4), 5: 0, 6: "", 7: [], 8: {}}
+    return {i: objs[i] for i in range(1, n + 1)}
+
+
 def mkop(ctx, op, n="", b=0, v=0, k="", child=0):
     return {"ctx": ctx, "op": op, "n": n, "b": b, "v": v, "k": k, "child": child}
 
@@ -58,7 +75,7 @@ class Env:
         self.ns = Local()
         self.stack = LocalStack()
         self.manager = LocalManager([self.ns, self.stack])
-        self.boxes = {i: Box(i) for i in range(1, nboxes + 1)}
+        self.boxes = make_objects(nboxes)
         self.proxies = {}
         for k in made:
             self.make_proxy(k)
@@ -77,7 +94,7 @@ class Env:
                 setattr(self.ns, o["n"], self.boxes[o["b"]])
                 return _ok()
             if op == "get":
-                return _box(getattr(self.ns, o["n"]))
+                return self._box(getattr(self.ns, o["n"]))
             if op == "del":
                 delattr(self.ns, o["n"])
                 return _ok()
@@ -90,9 +107,9 @@ class Env:
                 self.stack.push(self.boxes[o["b"]])
                 return _ok()
             if op == "pop":
-                return _box(self.stack.pop())
+                return self._box(self.stack.pop())
             if op == "top":
-                return _box(self.stack.top)
+                return self._box(self.stack.top)
             if op == "release_stack":
                 release_local(self.stack)
                 return _ok()
@@ -103,9 +120,15 @@ class Env:
                 self.make_proxy(o["k"])
                 return _ok()
             if op == "proxy_read":
-                return _box(self.proxies[o["k"]]._get_current_object())
+                return self._box(self.proxies[o["k"]]._get_current_object())
             if op == "proxy_mutate":
                 self.proxies[o["k"]].val = o["v"]  # LocalProxy.__setattr__ -> setattr(bound object)
+                return _ok()
+            if op == "proxy_pop":
+                self.proxies[o["k"]].pop()  # forwarded: list.pop() of the bound object
+                return _ok()
+            if op == "proxy_clear":
+                self.proxies[o["k"]].clear()
                 return _ok()
         except Exception as e:  # recorded, judged by TLC
             return {"tag": "exc", "id": 0, "exc": type(e).__name__}
@@ -121,78 +144,96 @@ class Env:
             return {"c": c, "get": [{"n": n, "id": -1} for n in self.names], "iter": [], "top": -1,
                     "stack": [-1], "sval": [-1], "prox": []}
 
+    # -- identification of objects (by identity) and of their state ------------------------------
+    def _ident(self, obj):
+        for i, b in self.boxes.items():
+            if b is obj:
+                return i
+        return -1
+
+    def _box(self, b):
+        if b is None:
+            return {"tag": "none", "id": 0, "exc": ""}
+        return {"tag": "box", "id": self._ident(b), "exc": ""}
+
+    @staticmethod
+    def _state(obj):
+        """The object's state as the model sees it: field `val`, or the length of a container."""
+        try:
+            v = obj.val if isinstance(obj, Box) else len(obj) if isinstance(obj, (list, dict, str)) else 0
+            return v if isinstance(v, int) and not isinstance(v, bool) else -1
+        except Exception:
+            return -1
+
     def _observe(self, c):
         get = []
         for n in self.names:
             try:
-                get.append({"n": n, "id": _ident(getattr(self.ns, n))})
+                get.append({"n": n, "id": self._ident(getattr(self.ns, n))})
             except AttributeError:
                 get.append({"n": n, "id": 0})
             except Exception:
                 get.append({"n": n, "id": -1})
-        it = [{"n": str(n), "id": _ident(b), "val": _sval(b)} for n, b in self.ns]
+        it = [{"n": str(n), "id": self._ident(b), "val": self._state(b)} for n, b in self.ns]
         it.sort(key=lambda e: e["n"])
         top = self.stack.top
         # the whole stack through the public API only: pop it empty inside a throw-away copy of
         # this context (a copy is independent -- that is the property under test; if it were not,
         # the damage shows up in the next observation and is reported there)
         items = contextvars.copy_context().run(_drain, self.stack)
-        prox = []
-        for k in sorted(self.proxies):
-            p = self.proxies[k]
-            e = {"k": k, "truthy": bool(p), "unb": repr(p) == UNBOUND_REPR}
-            try:
-                e["id"] = _ident_attr(p)
-            except RuntimeError:
-                e["id"] = 0
-            except Exception:
-                e["id"] = -1
-            try:
-                e["val"] = _val(p)
-            except RuntimeError:
+        prox = [self._observe_proxy(k, self.proxies[k]) for k in sorted(self.proxies)]
+        return {"c": c, "get": get, "iter": it, "top": 0 if top is None else self._ident(top),
+                "stack": [self._ident(b) for b in items], "sval": [self._state(b) for b in items],
+                "prox": prox}
+
+    def _observe_proxy(self, k, p):
+        """Reads through one proxy in the current context.  Codes: 0 = RuntimeError (the proxy says
+        it is unbound), -1 = any other failure."""
+        r = repr(p)
+        e = {"k": k, "truthy": bool(p), "unb": r == UNBOUND_REPR}
+        obj = None
+        try:
+            obj = p._get_current_object()
+            e["cur"] = self._ident(obj)
+        except RuntimeError:
+            e["cur"] = 0
+        except Exception:
+            e["cur"] = -1
+        e["repobj"] = e["cur"] > 0 and r == repr(obj)
+        # an operation forwarded to the bound object: attribute read for the plain objects (and for
+        # a proxy that says it is unbound: that must raise RuntimeError), == for the builtins.
+        # (`unbound_proxy == x` is not used: CPython's rich-comparison slot swallows the error
+        # raised while looking up __eq__ and answers NotImplemented -> False.)
+        try:
+            if obj is None or isinstance(obj, Box):
+                v = p.ident
+                e["id"] = v if isinstance(v, int) else -1
+            else:
+                e["id"] = e["cur"] if (p == obj) is True else -1
+        except RuntimeError:
+            e["id"] = 0
+        except Exception:
+            e["id"] = -1
+        # the object's state read through the proxy (field / len / int)
+        try:
+            if e["cur"] <= 0:
                 e["val"] = 0
-            except Exception:
-                e["val"] = -1
-            try:
-                e["cur"] = _ident(p._get_current_object())
-            except RuntimeError:
-                e["cur"] = 0
-            except Exception:
-                e["cur"] = -1
-            prox.append(e)
-        return {"c": c, "get": get, "iter": it, "top": 0 if top is None else _ident(top),
-                "stack": [_ident(b) for b in items], "sval": [_sval(b) for b in items], "prox": prox}
+            elif isinstance(obj, Box):
+                v = p.val
+                e["val"] = v if isinstance(v, int) and not isinstance(v, bool) else -1
+            elif isinstance(obj, int):
+                e["val"] = int(p)
+            else:
+                e["val"] = len(p)
+        except RuntimeError:
+            e["val"] = 0
+        except Exception:
+            e["val"] = -1
+        return e
 
 
 def _ok():
     return {"tag": "ok", "id": 0, "exc": ""}
-
-
-def _ident(b):
-    return b.ident if type(b) is Box else -1
-
-
-def _ident_attr(p):
-    v = p.ident  # attribute read through the proxy
-    return v if isinstance(v, int) else -1
-
-
-def _val(b):
-    v = b.val
-    return v if isinstance(v, int) and not isinstance(v, bool) else -1
-
-
-def _sval(b):
-    try:
-        return _val(b)
-    except Exception:
-        return -1
-
-
-def _box(b):
-    if b is None:
-        return {"tag": "none", "id": 0, "exc": ""}
-    return {"tag": "box", "id": _ident(b), "exc": ""}
 
 
 def _drain(stack):
@@ -376,7 +417,7 @@ def _process_loop():
     return _LOOP[pid]
 
 
-def run_trace(real, ops, *, names=("x", "y", "z"), nboxes=4, made=()):
+def run_trace(real, ops, *, names=("x", "y", "z"), nboxes=8, made=()):
     """Execute `ops` in the given realisation; returns the trace lines (cfg + one per op)."""
     env = Env(names, nboxes, made)
     world = AsyncioWorld(env, _process_loop()) if real == "asyncio" else WORLDS[real](env)
@@ -412,17 +453,13 @@ class LTS:
             self.succ.setdefault(a, []).append((r["act"]["op"], b))
             self.succ.setdefault(b, [])
             self.ntrans += 1
-        self.init = None
-        for r in records:
-            if isinstance(r, dict) and "pre" in r and r["pre"]["alive"] == [1] and not any(r["pre"]["stack"][0]):
-                s = r["pre"]
-                if all(v == 0 for a in s["attrs"] for v in a.values()) and all(v == 0 for v in s["cont"]) \
-                        and all(len(x) == 0 for x in s["stack"]):
-                    self.init = skey(s)
-                    self.init_made = list(s["made"])
-                    break
-        if self.init is None:
+        # single-worker BFS: the first exported transition leaves the initial state
+        first = next((r for r in records if isinstance(r, dict) and "pre" in r), None)
+        if first is None or first["pre"]["alive"] != [1] or any(len(x) for x in first["pre"]["stack"]) \
+                or any(v != 0 for a in first["pre"]["attrs"] for v in a.values()):
             raise MachineryError("exported LTS has no recognisable initial state")
+        self.init = skey(first["pre"])
+        self.init_made = list(first["pre"]["made"])
 
     def tours(self, rng, maxlen=40):
         """Paths from the initial state that together take every transition at least once:
@@ -485,7 +522,7 @@ class LTS:
 
 
 # ------------------------------------------------------------------------------ random schedules
-def random_ops(rng, length, *, nctx=3, names=("x", "y", "z"), nboxes=4, vals=(0, 1, 2, 7), made=(),
+def random_ops(rng, length, *, nctx=3, names=("x", "y", "z"), nboxes=8, vals=(0, 1, 2, 7), made=(),
                max_stack=5):
     """A seeded random behaviour of the model's vocabulary (tracks only what is needed to keep
     operations enabled: which contexts exist, which proxies exist, stack depth is irrelevant)."""
@@ -532,8 +569,12 @@ def random_ops(rng, length, *, nctx=3, names=("x", "y", "z"), nboxes=4, vals=(0,
             k = rng.choice(kinds)
             ops.append(mkop(c, "mkproxy", k=k))
             made.add(k)
-        elif w < 0.90:
+        elif w < 0.89:
             ops.append(mkop(c, "proxy_read", k=rng.choice(sorted(made))))
-        else:
+        elif w < 0.95:
             ops.append(mkop(c, "proxy_mutate", k=rng.choice(sorted(made)), v=rng.choice(vals)))
+        elif w < 0.98:
+            ops.append(mkop(c, "proxy_pop", k=rng.choice(sorted(made))))
+        else:
+            ops.append(mkop(c, "proxy_clear", k=rng.choice(sorted(made))))
     return ops
